@@ -24,10 +24,11 @@ def replayer(nan_ok):
     bounded harness, then run the real library on it."""
     def rp(v):
         f = units.member_function(units.EVAL_H, "searchcenters", "bool")
-        tu = T.PRELUDE + f.text(None) + S.replay_harness(8, nan_ok)
-        j = vlib.Job("replay-search", tu, "h_replay", loop_contracts=False, cbmc_flags=["--unwind", "10"], timeout=600)
+        tu = T.PRELUDE + f.text(None) + S.replay_harness(12, nan_ok)
+        j = vlib.Job("replay-search", tu, "h_replay", loop_contracts=False, cbmc_flags=["--unwind", "14"], timeout=600)
         j.run()
         fails = [n for (n, d) in j.failed() if "replay" in d or True]
+        last = None
         for n, d in j.failed():
             tr = j.trace_for(n)
             inp = S.replay_input_from_trace(tr)
@@ -35,9 +36,11 @@ def replayer(nan_ok):
             exe = native.build_driver("replay_lookup", ["src/core/bspline.cpp"])
             rc, out = native.run_driver(exe, inp, "lookup")
             confirmed = rc != 0
-            return dict(replayed=confirmed, input=inp, driver="tools/replay/replay_lookup.cpp (ASan+UBSan, real searchcenters and evaluation entry points)",
+            last = dict(replayed=confirmed, input=inp, driver="tools/replay/replay_lookup.cpp (ASan+UBSan, real searchcenters and evaluation entry points)",
                         exit_code=rc, observed=out[-3000:], bounded_obligation=n + ": " + d)
-        return dict(replayed=False, note="bounded explicit harness (nknots<=8, ndim=1) found no concrete failing input")
+            if confirmed: return last
+        if last: return last
+        return dict(replayed=False, note="bounded explicit harness (nknots<=12, ndim=1) found no concrete failing input")
     return rp
 
 def common_assumptions(rep, f, nan_ok):
@@ -60,3 +63,8 @@ if __name__ == "__main__":
         rep = vlib.Report("C04"); rep.add_jobs(js); common_assumptions(rep, f, False)
         rep.assume("call operator (operator()) is three lines of C++ glue: 'if(!searchcenters) return 0; return ndsplineeval(x,centers,0)'; checked syntactically by checks/glue.py clause in C03, not here")
         rep.finish(replayer(False))
+    if which == "C05probe":
+        f, js = jobs(True, [(16, 1)], "C05")
+        vlib.run_jobs(js, nproc=len(js))
+        rep = vlib.Report("C05"); rep.add_jobs(js); common_assumptions(rep, f, True)
+        rep.finish(replayer(True))
